@@ -212,6 +212,7 @@ pub struct Ctx {
     pub rule: String,
     pub harness_errors: Vec<String>,
     pub only_phase: Option<String>,
+    pub max_shrink_iters: u32,
     pub rt: tokio::runtime::Runtime,
 }
 
@@ -238,6 +239,7 @@ impl Ctx {
             rule: String::new(),
             harness_errors: vec![],
             only_phase: std::env::var("VERIF_PHASE").ok(),
+            max_shrink_iters: 4000,
             rt,
         }
     }
@@ -409,7 +411,7 @@ impl Ctx {
         let config = Config {
             cases,
             failure_persistence: None,
-            max_shrink_iters: 4000,
+            max_shrink_iters: self.max_shrink_iters,
             max_shrink_time: 120_000,
             rng_algorithm: RngAlgorithm::ChaCha,
             rng_seed: RngSeed::Fixed(seed),
